@@ -8,7 +8,7 @@ from harness.core import Ctx, cps, parallel_map
 from harness.drivers import textgen
 
 TRACE_CFG = "SPECIFICATION Spec\nCHECK_DEADLOCK FALSE\n"
-GRAMMAR_CFG = "SPECIFICATION Spec\nCONSTANT MaxLen = {n}\nINVARIANT Total\nINVARIANT RefinesQuotingLayer\nINVARIANT QuotedLiteralKeepsPattern\n"
+GRAMMAR_CFG = "SPECIFICATION Spec\nCONSTANTS\n MaxLen = {n}\n Alphabet <- {alpha}\nINVARIANT Total\nINVARIANT RefinesQuotingLayer\nINVARIANT QuotedLiteralKeepsPattern\n"
 SCAN_CFG = "SPECIFICATION Spec\nCONSTANTS\n Alphabet <- MCAlphabet\n MaxLen = {n}\nINVARIANT NeverStuck\nINVARIANT OutcomeKnown\nPROPERTY Total\nCHECK_DEADLOCK FALSE\n"
 PROTO_CFG = "SPECIFICATION Spec\nINVARIANT TypeOK\nCHECK_DEADLOCK FALSE\n"
 TYPES = list(textgen.TOKENS)
@@ -189,7 +189,9 @@ def run(ctx: Ctx):
     q = ctx.quick
     rnd = random.Random(ctx.seed + 8)
     ctx.mc("MC_PatternScan", SCAN_CFG.format(n=4 if q else 5), workers="auto", tag="scan", timeout=1800)
-    ctx.mc("MC_PatternGrammar", GRAMMAR_CFG.format(n=4 if q else 5), workers="auto", tag="grammar", timeout=1800)
+    ctx.mc("MC_PatternGrammar", GRAMMAR_CFG.format(n=4, alpha="Alpha16"), workers="auto", tag="grammar", timeout=1800)
+    if not q:
+        ctx.mc("MC_PatternGrammar", GRAMMAR_CFG.format(n=5, alpha="Alpha11"), workers="auto", tag="grammar5", timeout=3000)
     ctx.mc("MC_TextProtocol", PROTO_CFG, workers=1, tag="proto")
     small = small_scope_texts(rnd, 3 if q else 4, 4000 if q else 25000)
     total = 6000 if q else 150000
